@@ -166,9 +166,20 @@ func processStorageKeys(storageKeys []StorageKeys) ([]StorageKeys, *jsonrpc.Erro
 		merged[contract] = append(merged[contract], sk.Keys...)
 	}
 
+	// One entry per contract, in the order of the request (a repeated contract keeps its first
+	// position): the caller matches the proofs with its contracts by position.
 	uniqueStorageKeys := make([]StorageKeys, 0, len(merged))
-	for contract, keys := range merged {
-		uniqueStorageKeys = append(uniqueStorageKeys, StorageKeys{Contract: &contract, Keys: utils.Set(keys)})
+	for _, sk := range storageKeys {
+		contract := *sk.Contract
+		keys, pending := merged[contract]
+		if !pending {
+			continue
+		}
+		delete(merged, contract)
+		uniqueStorageKeys = append(
+			uniqueStorageKeys,
+			StorageKeys{Contract: &contract, Keys: utils.Set(keys)},
+		)
 	}
 
 	return uniqueStorageKeys, nil
